@@ -77,10 +77,12 @@ def t_rename(rng, p):
     return q, 0, 1.0, 0.0, new, None
 
 
-def t_translate(rng, p):
+def t_translate(rng, p, forced=None):
     q = copy.deepcopy(p)
     d = rng.choice([-40.0, 12.5, 100.0])
-    if q["utilities"] and rng.random() < 0.6:
+    if forced is not None:
+        d = forced
+    elif q["utilities"] and rng.random() < 0.6:
         # a shift that puts some utility temperature exactly on zero (no temperature is special: not even 0.0)
         u = rng.choice(q["utilities"])
         d = -rng.choice([u["t_supply"], u["t_target"]])
@@ -126,6 +128,21 @@ def mirror_both_glide(prob, a, b):
     lim = 0.1 * cp + 1e-6
     return (abs(b["Qh"] - a["Qc"]) <= lim and abs(b["Qc"] - a["Qh"]) <= lim and abs(b["Qr"] - a["Qr"]) <= lim
             and abs(sum(b["hu"].values()) - sum(a["cu"].values())) <= lim and abs(sum(b["cu"].values()) - sum(a["hu"].values())) <= lim)
+
+
+def grid_slack(prob, mode, d):
+    """Translating by an amount that is not a multiple of 1e-6 K moves every temperature to another place inside its cell of the
+    6-decimal grid: each stream end is rounded differently and the integrated duty of a stream changes by up to 2e-6 K x CP
+    (0.04 kW for a 5 kW stream 0.000125 K wide).  That is the resolution of the code's grid (tol = 1e-6 K), not a dependence on the
+    temperature level; lattice translations (-40, 12.5, 100, minus a 6-decimal utility level) get no allowance."""
+    from fractions import Fraction as Fr
+    if mode != 1 or (Fr(d) * 10 ** 6).denominator == 1:
+        return 0.0
+    cp = 0.0
+    for s in prob["streams"]:
+        span = abs(s["t_supply"] - s["t_target"])
+        cp += abs(s["heat_flow"]) / (span if span > 0 else 0.01)     # isothermal streams are given a 0.01 K glide by the code
+    return 2e-6 * cp
 
 
 def undersupplied_cold_utility(problem, recs):
@@ -238,6 +255,14 @@ def run(ctx):
                       utilities=[dict(name="HPS", type="Hot", t_supply=217.0, t_target=215.0, heat_flow=0.0, dt_cont=5.0, htc=1.0, price=30.0),
                                  dict(name="LPS", type="Hot", t_supply=164.49975, t_target=162.49975, heat_flow=0.0, dt_cont=5.0, htc=1.0, price=20.0),
                                  dict(name="CW", type="Cold", t_supply=102.4995, t_target=114.4995, heat_flow=0.0, dt_cont=2.5, htc=1.0, price=2.0)]), None))
+    # regression of a corrected false alarm (DESIGN 12.3 item 12): a 0.000125 K wide stream (CP 40000) translated by an off-lattice amount
+    base.append((dict(streams=[dict(zone="P0", name="S0_0", t_supply=195.0, t_target=55.0, heat_flow=105.0, dt_cont=5.0, htc=0.5),
+                               dict(zone="P0", name="N1_0", t_supply=60.0, t_target=190.0, heat_flow=260.0, dt_cont=5.0, htc=1.0),
+                               dict(zone="P0", name="S2_0", t_supply=275.0, t_target=275.000125, heat_flow=5.0, dt_cont=5.0, htc=1.0)],
+                      utilities=[dict(name="HPS", type="Hot", t_supply=283.000125, t_target=282.500125, heat_flow=0.0, dt_cont=2.5, htc=1.0, price=30.0),
+                                 dict(name="LPS", type="Hot", t_supply=165.5000625, t_target=165.0000625, heat_flow=0.0, dt_cont=2.5, htc=1.0, price=20.0),
+                                 dict(name="CW", type="Cold", t_supply=37.5, t_target=48.0, heat_flow=0.0, dt_cont=2.5, htc=1.0, price=2.0)]),
+                 dict(translate_d=-165.0000625)))
     for _ in range(n):
         base.append(pc.gen_problem(ctx.rng, nzones=ctx.rng.choice([1, 1, 2, 3]), regime=ctx.rng.choice(["none", "iso", "multi", "glide", "steered", "limit", "limit"]), nmax=5))
     for prob, m in base:
@@ -247,7 +272,7 @@ def run(ctx):
             ctx.fail("service-raises", f"{type(e).__name__}: {e}", suite="twins", input=prob, predicate="service returns")
             continue
         for tname, fn in TWINS:
-            tw = fn(ctx.rng, prob)
+            tw = fn(ctx.rng, prob, m["translate_d"]) if (tname == "translate" and m and "translate_d" in m) else fn(ctx.rng, prob)
             if tw is None:
                 continue
             q, mode, k, d, zmap, umap = tw
@@ -273,11 +298,11 @@ def run(ctx):
                     cn = sorted(set(a["cu"]) | {mir(n) for n in b["hu"]})
                     B = dict(b, hu={mir(n): v_ for n, v_ in b["hu"].items()}, cu={mir(n): v_ for n, v_ in b["cu"].items()})
                     # c12_b mode 3 relates b.hu to a.cu and b.cu to a.hu position by position
-                    cf.add(f"c12_b 3 1 0 {trec(a, hn, cn)} {trec(B, cn, hn)}")
+                    cf.add(f"c12_b 3 1 0 0 {trec(a, hn, cn)} {trec(B, cn, hn)}")
                 else:
                     hn = sorted(set(a["hu"]) | set(b["hu"]))
                     cn = sorted(set(a["cu"]) | set(b["cu"]))
-                    cf.add(f"c12_b {mode} {qlit(k)} {qlit(d)} {trec(a, hn, cn)} {trec(b, hn, cn)}")
+                    cf.add(f"c12_b {mode} {qlit(k)} {qlit(d)} {qlit(grid_slack(prob, mode, d))} {trec(a, hn, cn)} {trec(b, hn, cn)}")
                 meta.append((prob, q, tname, name, a, b, ra, rb))
     agree = bad = frag = 0
     for (prob, q, tname, name, a, b, ra, rb), v in zip(meta, cf.run()):
